@@ -965,6 +965,7 @@ def build_hooked():
     out = os.path.join(hv.HBIN, "hv-c14hook")
     with hv.Lock("go" + hv.ALT):
         cmd = ["go", "build", "-tags", "verif c14hook", "-o", out]
+        cmd[2:2] = hv.cover_flags()
         if hv.ALT:
             cmd.append("-modfile=" + os.path.join(hv.BUILD, "alt-" + hv.ALT, "go.mod"))
         rc, o, e = hv.sh(cmd + ["./cmd/c14"], cwd=hd, env=hv.GOENV, timeout=1800)
